@@ -339,11 +339,11 @@ def run_cases(exe, cases, tmpdir, tag, nshards=None, timeout=600, env=None, per_
             want = j['hi'] - j['lo']
             for i, l in enumerate(complete[:want]):
                 results[j['lo'] + i] = l
-            if got < want and rc == 124 and (got > 0 or j['attempt'] < 2):
+            if got < want and rc == 124 and (got > 0 or j['attempt'] < 1):
                 # the SHARD ran out of wall time (slow / loaded machine), which says nothing about the case in
                 # flight: resume at that case with a longer limit; only a case that makes no progress at all
-                # in three successively longer attempts is reported as CRASH(timeout)
-                nxt.append(start(j['lo'] + got, j['hi'], serial, limit=j['limit'] * 3, attempt=(0 if got > 0 else j['attempt'] + 1))); serial += 1
+                # in two attempts (the second with twice the limit) is reported as CRASH(timeout)
+                nxt.append(start(j['lo'] + got, j['hi'], serial, limit=min(j['limit'] * 2, max(j['limit'], 3600)), attempt=(0 if got > 0 else j['attempt'] + 1))); serial += 1
                 continue
             if got < want:
                 err = open(j['efn'], errors='replace').read().strip().splitlines()
